@@ -14,14 +14,15 @@
                                                timing_iff_not_reset, variables_to_13_decimals, integers_exact)
     "1..12 primary variables (1..3 lines)"     incon_roundtrip_partial (any count ≥ 1) and num_variables_needed
     "block names survive the naming quirk in both directions"   name_written_then_read, name_read_then_written
-    "writing it again reproduces the file byte for byte"        rewrite_real_stable_partial (per value; the whole-file
-                                               statement is not proved, see the note at the end), witnesses
+    "writing it again reproduces the file byte for byte"        incon_write_fixpoint_partial (whole file), rewrite_real_stable_partial
+                                               (per value), fmtE_reprint_stable; witnesses of the two excluded classes:
                                                excluded_reduced_precision_carry, excluded_header_double_rounding
 -/
 import PyTough.Model.Incon
 import PyTough.Gen.Specs
 import PyTough.Proofs.InconRoundtrip
 import PyTough.Proofs.InconRewrite
+import PyTough.Proofs.InconFixpoint
 
 namespace Props.C13
 open Py Model Model.Incon Model.Names Proofs Proofs.Incon
@@ -278,16 +279,53 @@ theorem excluded_header_double_rounding :
       (pvalToDouble (reparse .fortran (timingLayout theSpecs.timing).sumtim (.real exSumtim))) = .ok "1.234565e+00".toList := by
   constructor <;> decide +kernel
 
+theorem header_ok : HeaderOK theSpecs (fieldAt theSpecs.headerLong 0) (fieldAt theSpecs.headerLong 1)
+    (fieldAt theSpecs.headerLong 2) (fieldAt theSpecs.headerLong 3) := ⟨by decide +kernel⟩
+
+/-- no value needed reduced precision, and the long header's time is printed identically for the
+    in-memory and the re-read `sumtim` (definition `AllFull` in `Proofs/InconFixpoint.lean`) -/
+def NoPrecisionLost (rf : ReadFn) (x : Incon Val) (reset : Bool) : Prop :=
+  AllFull rf theLayout (timingLayout theSpecs.timing) (timingLayout theSpecs.timingTr)
+    (fieldAt theSpecs.headerLong 3) x reset
+
+/-- **Writing it again reproduces the file** (`_partial`).  For every well-formed `x` (as in
+    `incon_roundtrip_partial`) with `NoPrecisionLost`: the file `write` produced is read back as some
+    `y`, and writing `y` (its values handed back as the exact decimals read: assumption A-float)
+    with the same `reset` yields the very same lines.
+    Excluded, with witnesses: values that the width guard wrote with reduced precision
+    (`excluded_reduced_precision_carry`) and a header time that rounds differently from the 9-decimal
+    value (`excluded_header_double_rounding`) — the two known findings of the byte-for-byte clause. -/
+theorem incon_write_fixpoint_partial (rf : ReadFn) (x : Incon Val) (nvars : Option Nat) (check reset : Bool)
+    (hwf : InconWF x nvars) (hfull : NoPrecisionLost rf x reset) {file : List Str}
+    (hw : write theSpecs x reset = .ok file) :
+    ∃ y, read rf theSpecs TOUGH2 nvars check file = .ok y ∧
+      write theSpecs (y.mapVals pvalToVal) reset = .ok file :=
+  ⟨canon rf x reset, incon_roundtrip_partial rf x nvars check reset hwf hw,
+    write_back rf layout_ok timing_ok timing_toughreact_ok header_ok x nvars reset hwf hfull hw⟩
+
+-- non-vacuity: the example object loses no precision
+example : NoPrecisionLost .fortran exIncon false := by
+  refine ⟨?_, by intro t h; cases h⟩
+  intro b hb
+  simp only [exIncon, List.mem_singleton] at hb
+  subst hb
+  refine ⟨?_, ?_, by intro k h; cases h⟩
+  · intro x hx
+    simp only [exBlock, List.mem_cons, List.not_mem_nil, or_false] at hx
+    rcases hx with rfl | rfl
+    · intro r hr; cases hr
+      exact ⟨"-2.6000000000000e+03".toList, by decide +kernel, by decide +kernel⟩
+    · intro r hr; cases hr
+      exact ⟨"1.0000000000000e-100".toList, by decide +kernel, by decide +kernel⟩
+  · intro r hr; cases hr
+    exact ⟨"1.000000000e-01".toList, by decide +kernel, by decide +kernel⟩
+
 /-
-  Not proved: the whole-file form of "writing it again reproduces the file byte for byte"
-  (`write (read (write x)) = write x`).  Its per-value content is `rewrite_real_stable_partial`
-  (reals), `integers_exact` and `name_written_then_read` (integers and names come back exactly, so
-  they are re-written identically); the structure of the file (header, one record and
-  ceil(n/4) value lines per block, terminator/timing) is determined by `canon x reset`, which
-  `incon_roundtrip_partial` shows to have the same blocks, counts, flavour and timing presence as
-  `x`.  The composition of these facts into one statement about `write` has not been carried out.
-  On the real code the second generation is compared byte for byte with the first by the oracle and
-  with the model by the correspondence facet `incon_rewrite` on every run.
+  The theorems work on the list of lines (`write` returns them, `read` takes them); that the text
+  of the file splits back into exactly these lines (`splitLines`, universal newlines) is part of
+  the model tied by the correspondence, not proved.  On the real code the second generation is
+  compared byte for byte with the first by the oracle and with the model (through an exact model
+  of `float()` rounding, `pvalToDouble`) by the correspondence facet `incon_rewrite` on every run.
 -/
 
 end Props.C13
